@@ -80,3 +80,31 @@ Theorem C02_builder_boolean_filter : forall D has_ns hc rm rn rr re_ok d input c
           In n (nodes_of l) /\ (exists v, eval D has_ns hc rm rn rr c n = Val v /\ xboolean_value v = true))).
 Proof. exact boolean_filter_selects. Qed.
 Print Assumptions C02_builder_boolean_filter.
+
+(* ---- END TO END for one boolean predicate on the last step (Proofs/EndToEndPred.v):
+   P[E] (path existence) and P[E = 'lit'], P and E predicate-free location paths: the
+   compiled TEXT selects exactly the nodes n of P for which E, evaluated with n as
+   context node, is non-empty (resp. contains a node whose string-value is the literal) ---- *)
+From XP Require Import Api.
+From XP.Spec Require Import Paths.
+From XP.Proofs Require Import HashInj RoundTripPaths EndToEndPaths EndToEndPred.
+
+Theorem C02_path_existence_end_to_end : forall D has_ns hcode rm rn rr re_ok ns p e abs steps iabs isteps,
+  path_syntax p -> steps_of p = (abs, steps) -> path_syntax e -> steps_of e = (iabs, isteps) ->
+  xok (with_pred p e) -> List.length steps + 1 < max_build_depth -> List.length isteps + 2 < max_build_depth ->
+  hash_ok hcode (all_nodes D) ->
+  exists q, compile re_ok (print_min (with_pred p e)) ns = Ok q /\
+    selects_where D has_ns hcode rm rn rr q abs steps
+      (fun n => exists m, path_den D has_ns isteps (if iabs then root_node else n) m).
+Proof. exact C02_exists_end_to_end. Qed.
+Print Assumptions C02_path_existence_end_to_end.
+
+Theorem C02_equals_literal_end_to_end : forall D has_ns hcode rm rn rr re_ok ns p e lit abs steps iabs isteps,
+  path_syntax p -> steps_of p = (abs, steps) -> path_syntax e -> steps_of e = (iabs, isteps) ->
+  xok (with_pred p (eq_lit e lit)) -> List.length steps + 1 < max_build_depth -> List.length isteps + 2 < max_build_depth ->
+  hash_ok hcode (all_nodes D) ->
+  exists q, compile re_ok (print_min (with_pred p (eq_lit e lit))) ns = Ok q /\
+    selects_where D has_ns hcode rm rn rr q abs steps
+      (fun n => exists m, path_den D has_ns isteps (if iabs then root_node else n) m /\ node_value D m = lit).
+Proof. exact C02_eq_literal_end_to_end. Qed.
+Print Assumptions C02_equals_literal_end_to_end.
